@@ -3569,7 +3569,15 @@ impl SctpInner {
 
         let burst_constrained_cwnd = (flight_val + burst_limit).min(cwnd_val);
 
-        let effective_window = burst_constrained_cwnd.min(rwnd_val);
+        // RFC 4960 §6.1 A): with the peer's window closed and nothing in flight one DATA
+        // chunk may go out as a probe. Without it a lost window update is never
+        // repaired when nothing is left to time out (everything acknowledged or
+        // abandoned): the association is stuck for good.
+        let effective_window = if rwnd_val == 0 && flight_val == 0 {
+            1
+        } else {
+            burst_constrained_cwnd.min(rwnd_val)
+        };
         #[cfg(rustrtc_verif)]
         crate::verif_hooks::sctp::trace(self.local_port, || {
             crate::verif_hooks::sctp::Ev::Mark(
